@@ -192,6 +192,14 @@ def _case(spec, ctx):
             tl = np.asarray(ad.transform(X.tolist()), float)
         if not np.array_equal(tl, t1):
             ctx.fail("transform:input-form", "nested-list input gives another result than the equivalent array", spec)
+        Xi = np.round(X).astype(np.int64)
+        with ctx.formak("transform:int-input", spec):
+            ti = np.asarray(ad.transform(Xi), float)
+            ti_list = np.asarray(ad.transform(Xi.tolist()), float)
+            tf = np.asarray(ad.transform(Xi.astype(float)), float)
+        if not (np.array_equal(ti, tf) and np.array_equal(ti_list, tf)):
+            ctx.fail("transform:input-dtype", f"integer-valued data as int64 array / list of ints gives {ti.tolist()[:2]} / {ti_list.tolist()[:2]}, "
+                                              f"as float64 array {tf.tolist()[:2]}", spec)
         if X.shape[1] == 1:
             with ctx.formak("transform:1d-input", spec):
                 t1d = np.asarray(ad.transform(X.reshape(-1)), float)
